@@ -10,6 +10,14 @@ CLAIMS = {
             "Generated-input search: every value tree of a small alphabet/arity/depth is enumerated and tens of thousands of random trees (all byte values, bulks to 64KiB, deep nesting) and constructor arguments are pushed through four round-trip relations against an independent strict codec. Exploration is the right level: the domain is infinite, the relations are cheap and exact.",
             "Trusts the harness's own codec (internal/resp, written from the RESP2 specification, self-tested) and Go's strconv for the float oracle.",
             "DESIGN.md 4/C01"),
+    "C02": ("property-based testing (rapid) over value sequences x read partitions (all 2-way splits, 1-byte reads, biased k-way), oracle = exact values + exact consumed offsets via a counting chunk reader; native fuzzing of (stream, partition)",
+            "Generated-input search over (stream, chunking) pairs with an exact oracle: the i-th value and the number of bytes consumed after it are known from the independent encoder. Every 2-way split of short streams is enumerated, longer streams are split at every length-prefix/CR-LF position; exploration because streams and partitions are unbounded.",
+            "The chunk reader models a TCP connection (one chunk per Read, never (0,nil), (0,EOF) only at the end); (n>0,EOF) readers are excluded and the exclusion is stated in the evidence rule. Trusts internal/resp.",
+            "DESIGN.md 4/C02"),
+    "C06": ("mutation-based and grammar-aware fuzzing (rapid-driven structure-aware mutators + native coverage-guided go test -fuzz), oracle = no panic / no absent element / read-count bound, allocation bombs judged by process survival in a child under RLIMIT_AS",
+            "Generated hostile inputs (mutated valid streams, boundary lengths and counts, nesting to 2^18 levels) are fed to Parser.Next() until end or error; a panic, an array with an absent element, a read count beyond 10^6+1000*len, or the death of a memory-limited child process is a violation. Exploration: the input space is all byte strings up to 1 MiB.",
+            "RLIMIT_AS=8GiB stands for 'a <=1MiB input must not need more than 8GiB'; the step bound is a count of Read calls, not a clock. Native fuzzing cannot be seeded; its saved input is the reproducible unit.",
+            "DESIGN.md 4/C06"),
 }
 
 PENDING = {
